@@ -533,6 +533,7 @@ func C11Matrix() []c11Cell {
 	for _, ca := range []string{"cancel", "localclose", "peereof", "peerreset"} {
 		cells = append(cells, c11Cell{"disconnect", "before", ca})
 	}
+	cells = append(cells, c11Cell{"connect", "after-disconnect", "none"})
 	// Connect / Disconnect of the reconnecting client
 	for _, st := range []string{"dialparked", "connack", "backoff"} {
 		for _, ca := range []string{"cancel", "deadline"} {
@@ -667,6 +668,13 @@ func genC11Cell(r *Rng, cell c11Cell) *Scenario {
 	cfg := &sc.Cfg
 	cfg.HoldAcks = true
 	cfg.LatC2BUs, cfg.LatB2CUs = 100, 100
+	if cell.call == "connect" && cell.step == "after-disconnect" {
+		// Disconnect wins the race against Connect on the same client object
+		sc.Ops = append(sc.Ops, Op{AtUs: 50, Actor: 1, Kind: "disconnect"})
+		sc.Ops = append(sc.Ops, Op{AtUs: 100, Actor: 0, Kind: "connect"})
+		sc.HorizonUs, sc.EndUs = 6000, 8000
+		return sc
+	}
 	if cell.call == "connect" {
 		sc.Ops = append(sc.Ops, Op{AtUs: 100, Actor: 0, Kind: "connect"})
 		switch cell.step {
@@ -812,7 +820,7 @@ func genC12Base(r *Rng) *Scenario {
 		switch step {
 		case 0: // the write itself fails / dead link before the call
 			if cause == "writeerr" || cause == "deadline" || cause == "cancel" {
-				sc.Faults = append(sc.Faults, Fault{Kind: "writeErr", Conn: conn, N: 1, Prefix: int(r.between(0, 5))})
+				sc.Faults = append(sc.Faults, Fault{Kind: "writeErr", Conn: conn, N: 1, Prefix: int(r.between(0, 5)), Code: byte(r.IntN(2))})
 			} else {
 				genCause(sc, cause, t-200, me, cli, conn)
 			}
@@ -825,7 +833,7 @@ func genC12Base(r *Rng) *Scenario {
 			sc.Script = append(sc.Script, Out{Conn: conn, AtUs: t + 300, Kind: "release", Held: -1})
 			if cause == "writeerr" {
 				// PUBREL write fails
-				sc.Faults = append(sc.Faults, Fault{Kind: "writeErr", Conn: conn, N: 2, Prefix: int(r.between(0, 3))})
+				sc.Faults = append(sc.Faults, Fault{Kind: "writeErr", Conn: conn, N: 2, Prefix: int(r.between(0, 3)), Code: byte(r.IntN(2))})
 			} else {
 				genCause(sc, cause, t+1500, me, cli, conn)
 			}
